@@ -44,7 +44,7 @@ package forkexec
 // system call its documented effect on the ghost child state; every call may fail.
 // int mode: descriptor shuffle (C06), frame (C06), error reporting (C07), rlimits (C08).
 // bv mode: flag words and the exec-point security state (C03, C04, C05, C07).
-//@ func pkg/forkexec.forkAndExecInChild props C01 C03 C04 C05 C06 C07 C08
+//@ func pkg/forkexec.forkAndExecInChild props C01 C03 C04 C05 C06 C07 C08 C16
 //@   arith int bv
 //@   requires r != nil
 //@   requires #int forall j int :: soff(r.Files) <= j && j < soff(r.Files) + len(r.Files) ==> cell(r.Files, j) < 2147483648 || cell(r.Files, j) == 18446744073709551615
@@ -139,8 +139,8 @@ package forkexec
 //@   callsite syscall.RawSyscall when trap == 59: assert @C05 #bv fs_ok()
 //@   callsite syscall.RawSyscall6 when trap == 322: assert @C07 #int sync_files_ok()
 //@   callsite syscall.RawSyscall when trap == 59: assert @C07 #int sync_files_ok()
-//@   callsite syscall.RawSyscall6 when trap == 322: assert @C07 #bv sync_ok()
-//@   callsite syscall.RawSyscall when trap == 59: assert @C07 #bv sync_ok()
+//@   callsite syscall.RawSyscall6 when trap == 322: assert @C07 @C16 #bv sync_ok()
+//@   callsite syscall.RawSyscall when trap == 59: assert @C07 @C16 #bv sync_ok()
 //@   callsite syscall.RawSyscall6 when trap == 322: assert @C06 @C13 #bv a1 == execFile && a2 == addr(elemaddr(empty, 0)) && a5 == 4096
 //@   callsite childExitError: assert @C07 #bv loc_ok(int(loc), K.last_trap)
 //@   callsite childExitErrorWithIndex: assert @C07 #bv loc_ok(int(loc), K.last_trap)
